@@ -28,6 +28,9 @@ pub enum Case {
     /// orphans: vertices appended to the vertex list that no face references
     Planar { spec: MeshSpec, t: Iso3D, #[serde(default = "one")] unit: f64, #[serde(default)] orphans: Vec<P3> },
     Curved { spec: MeshSpec, t: Iso3D, #[serde(default = "one")] unit: f64 },
+    /// a polygonal outline (n even, radii r*rad[k]) fanned to two interior vertices delta_rel*r apart, joined by an interior
+    /// edge: the two faces on that edge are needles with an apex angle of about delta_rel radians
+    Needle { n: usize, r: f64, rad: Vec<f64>, delta_rel: f64, pose: Iso3D },
     Reject { kind: NonDisk, spec: MeshSpec },
     Uv { spec: MeshSpec, affine: [f64; 6], samples: Vec<(u16, f64, f64, f64)> },
 }
@@ -68,7 +71,7 @@ impl Property for C20 {
     type Case = Case;
     const ID: &'static str = "C20";
     fn rule() -> &'static str {
-        "families: planar triangulated disks built in 2D by the harness (jittered grids 3x3..16x16 quick / 40x40 thorough with random diagonals, strips of aspect up to 1:30, L-shaped non-convex outlines, fans) with shuffled vertex numbering and face order, all-CCW or all-CW winding, lifted by an arbitrary isometry, a fifth of them with 1-3 unreferenced vertices appended to the vertex list, in the generated length unit (cells 0.5..4) or scaled as a whole by 1e-7..1e4; curved disks (height fields, domes, creases, cones) for the invariance clause; non-disks (closed solids, tubes with two boundary loops, two components, a fin making an edge shared by three faces, bow-tie of two disks, grid with an interior hole) for the rejection clause; meshes carrying a UV map that is an affine image of their planar layout with random (face, barycentric, height) samples. Oracle: edge lengths and triangle areas preserved, one orientation sign, result finite; flatten(T mesh) equals flatten(mesh) up to a planar rigid motion; Err for non-disks; UV round trip. Non-trivial: at least one interior vertex, shuffled numbering and a pose that is not axis-aligned. Distinct = distinct canonical JSON."
+        "families: planar triangulated disks built in 2D by the harness (jittered grids 3x3..16x16 quick / 40x40 thorough with random diagonals, strips of aspect up to 1:30, L-shaped non-convex outlines, fans) with shuffled vertex numbering and face order, all-CCW or all-CW winding, lifted by an arbitrary isometry, a fifth of them with 1-3 unreferenced vertices appended to the vertex list, in the generated length unit (cells 0.5..4) or scaled as a whole by 1e-7..1e4; polygonal disks with two needle faces (apex angle 1e-6..1e-3 rad) on a short interior edge; curved disks (height fields, domes, creases, cones) for the invariance clause; non-disks (closed solids, tubes with two boundary loops, two components, a fin making an edge shared by three faces, bow-tie of two disks, grid with an interior hole) for the rejection clause; meshes carrying a UV map that is an affine image of their planar layout with random (face, barycentric, height) samples. Oracle: edge lengths and triangle areas preserved, one orientation sign, result finite; flatten(T mesh) equals flatten(mesh) up to a planar rigid motion; Err for non-disks; UV round trip. Non-trivial: at least one interior vertex, shuffled numbering and a pose that is not axis-aligned. Distinct = distinct canonical JSON."
     }
     fn cases(t: Tier) -> u32 {
         t.pick(50_000, 200_000)
@@ -77,7 +80,7 @@ impl Property for C20 {
         Some(Duration::from_secs(30))
     }
     fn expected_labels() -> Vec<&'static str> {
-        vec!["planar", "planar_cw", "planar_ccw", "curved", "reject_closed", "reject_two_loops", "reject_two_components", "reject_nonmanifold", "reject_bowtie", "reject_hole", "uv", "nonconvex", "unit_below_1e-4", "unreferenced_vertices"]
+        vec!["planar", "planar_cw", "planar_ccw", "curved", "reject_closed", "reject_two_loops", "reject_two_components", "reject_nonmanifold", "reject_bowtie", "reject_hole", "uv", "nonconvex", "unit_below_1e-4", "unreferenced_vertices", "planar_needle_faces"]
     }
     fn strategy(t: Tier) -> BoxedStrategy<Case> {
         let nmax = t.pick(16, 40);
@@ -93,6 +96,7 @@ impl Property for C20 {
             5 => (disk_spec(planar_kind(nmax)), iso3(100.0), unit(), prop_oneof![4 => Just(vec![]), 1 => prop::collection::vec(p3(5.0), 1..4)]).prop_map(|(spec, t, unit, orphans)| Case::Planar { spec, t, unit, orphans }),
             2 => (disk_spec(curved_kind(nmax.min(20))), iso3(100.0), unit()).prop_map(|(spec, t, unit)| Case::Curved { spec, t, unit }),
             2 => reject,
+            1 => (3usize..7, logu(-1.0, 1.5), prop::collection::vec(unif(0.7, 1.0), 12), logu(-6.0, -3.0), iso3(20.0)).prop_map(|(h, r, rad, delta_rel, pose)| Case::Needle { n: 2 * h, r, rad, delta_rel, pose }),
             2 => (disk_spec(planar_kind(8)), [unif(0.5, 2.0), unif(-0.5, 0.5), unif(-0.5, 0.5), unif(0.5, 2.0), unif(-5.0, 5.0), unif(-5.0, 5.0)], prop::collection::vec((any::<u16>(), unif(0.05, 0.9), unif(0.05, 0.9), prop_oneof![Just(0.0), unif(-0.05, 0.05)]), 1..12)).prop_map(|(spec, affine, samples)| Case::Uv { spec, affine, samples }),
         ]
         .boxed()
@@ -101,6 +105,7 @@ impl Property for C20 {
         match case {
             Case::Planar { spec, t, unit, orphans } => planar(spec, t, *unit, orphans),
             Case::Curved { spec, t, unit } => curved(spec, t, *unit),
+            Case::Needle { n, r, rad, delta_rel, pose } => needle(*n, *r, rad, *delta_rel, pose),
             Case::Reject { kind, spec } => reject(kind, spec),
             Case::Uv { spec, affine, samples } => uv(spec, affine, samples),
         }
@@ -250,6 +255,67 @@ fn planar(spec: &MeshSpec, t: &Iso3D, unit: f64, orphans: &[P3]) -> Verdict {
     if interior >= 1 && spec.shuffle != 0 && spec.pose.is_generic() {
         cx.nontrivial();
     }
+    cx.pass()
+}
+
+/// A planar disk with two needle-shaped (but non-degenerate) faces: every edge, the short interior one included, keeps
+/// its length and every face its orientation.
+fn needle(n: usize, r: f64, rad: &[f64], delta_rel: f64, pose: &Iso3D) -> Verdict {
+    let mut cx = Ctx::new();
+    cx.label("planar_needle_faces");
+    let n = n.clamp(6, 12) & !1;
+    let delta = delta_rel * r;
+    let mut flat: Vec<Point2> = (0..n)
+        .map(|k| {
+            let th = -std::f64::consts::FRAC_PI_2 + k as f64 * std::f64::consts::TAU / n as f64;
+            let rr = if k == 0 || k == n / 2 { r } else { r * rad[k % rad.len()] };
+            Point2::new(rr * th.cos(), rr * th.sin())
+        })
+        .collect();
+    // exact top and bottom vertices on the axis through the short edge's midpoint
+    flat[0] = Point2::new(0.0, -r);
+    flat[n / 2] = Point2::new(0.0, r);
+    let (ip, iq) = (n as u32, n as u32 + 1);
+    flat.push(Point2::new(-0.5 * delta, 0.0));
+    flat.push(Point2::new(0.5 * delta, 0.0));
+    let mut f: Vec<[u32; 3]> = vec![];
+    for k in 0..n {
+        let (a, b) = (k as u32, ((k + 1) % n) as u32);
+        f.push([a, b, if k < n / 2 { iq } else { ip }]);
+    }
+    f.push([(n / 2) as u32, ip, iq]);
+    f.push([0, iq, ip]);
+    let iso = pose.to_iso();
+    let v: Vec<Point3> = flat.iter().map(|p| iso * Point3::new(p.x, p.y, 0.0)).collect();
+    for t in &f {
+        if area2(&flat[t[0] as usize], &flat[t[1] as usize], &flat[t[2] as usize]) <= 0.0 {
+            return Verdict::Discard("generated outline is not star-shaped about the short edge");
+        }
+    }
+    let uv = match flatten(&v, &f) {
+        Ok(Ok(uv)) => uv,
+        Ok(Err(e)) => return Verdict::fail("C20/flatten/planar_disk_rejected", format!("planar disk with two needle faces rejected: {e}")),
+        Err(m) => return Verdict::fail("C20/flatten/panic", m),
+    };
+    ensure!(uv.len() == v.len() && uv.iter().all(|p| p.x.is_finite() && p.y.is_finite()), "C20/flatten/non_finite", "count or finiteness");
+    let tol = 1e-7 * r;
+    let mut edges: std::collections::BTreeSet<(u32, u32)> = std::collections::BTreeSet::new();
+    for t in &f {
+        for k in 0..3 {
+            let (a, b) = (t[k], t[(k + 1) % 3]);
+            edges.insert((a.min(b), a.max(b)));
+        }
+    }
+    for (a, b) in &edges {
+        let l3 = (v[*a as usize] - v[*b as usize]).norm();
+        let l2 = (uv[*a as usize] - uv[*b as usize]).norm();
+        ensure!((l2 - l3).abs() <= tol, "C20/flatten/edge_length/needle", "edge ({a},{b}) has length {l3:e} in 3D and {l2:e} in the flattening (short edge {delta:e}, size {r:e})");
+    }
+    for (i, t) in f.iter().enumerate() {
+        let a2 = area2(&uv[t[0] as usize], &uv[t[1] as usize], &uv[t[2] as usize]);
+        ensure!(a2 > 0.0, "C20/flatten/folded/needle", "face {i} has area {a2:e} in the flattening");
+    }
+    cx.nontrivial();
     cx.pass()
 }
 
